@@ -19,6 +19,8 @@ CharTab ==
   "m1#v_m1" :> <<109,49,35,118,95,109,49>> @@ "m2#v_m2" :> <<109,50,35,118,95,109,50>> @@
   "p1" :> <<112,49>> @@ "p2" :> <<112,50>> @@ "p3" :> <<112,51>> @@ "p4" :> <<112,52>> @@
   "v_m1" :> <<118,95,109,49>> @@ "v_m2" :> <<118,95,109,50>> @@
+  "g_m1" :> <<103,95,109,49>> @@ "g_m2" :> <<103,95,109,50>> @@
+  "m1#g_m1" :> <<109,49,35,103,95,109,49>> @@ "m2#g_m2" :> <<109,50,35,103,95,109,50>> @@
   \* pattern keys used by the configuration lattice
   "*2" :> <<42,50>> @@ "*3" :> <<42,51>> @@ "*4" :> <<42,52>> @@ "m?#*" :> <<109,63,35,42>>
 
@@ -39,17 +41,23 @@ Assigns(NP) == {f \in [1..NP -> {"", "m1", "m2"}] : \A i \in 1..NP : f[i] = "m2"
 ModIdx(mn) == CHOOSE i \in DOMAIN MNames : MNames[i] = mn
 
 \* f: module assignment, R: call relation, style: how cross-module calls are made accessible,
-\* vimp: p1 additionally imports a module variable, fm: file mode
-MkProject(NP, f, R, style, vimp, fm) ==
+\* vimp: p1 additionally imports a module variable, fm: file mode,
+\* ifc: if the last procedure lives in a module, that module declares the generic interface g_<mod> over it and every
+\*      caller other than p1 and its siblings calls the interface instead (USE <mod>, ONLY: g_<mod> inside the caller)
+MkProjectI(NP, f, R, style, vimp, fm, ifc) ==
   LET used == {f[i] : i \in 1..NP} \ {""}
+      ifcOn == ifc /\ f[NP] # ""
+      gname == "g_" \o f[NP]
+      viaIf(i) == ifcOn /\ i >= 2 /\ i # NP /\ f[i] # f[NP] /\ <<i, NP>> \in R
+      direct(i, j) == <<i, j>> \in R /\ ~(j = NP /\ viaIf(i))
       usedSeq == MapSeq(SortedSeq({ModIdx(m) : m \in used}), LAMBDA k : MNames[k])
       callees(i) == SortedSeq({j \in 1..NP : <<i, j>> \in R})
       qualified == style \in {"only_r", "only_m"}
       rlevel(i) == style \in {"only_r", "unq_r"} \/ f[i] = ""
       \* modules (other than its own) from which procedure i calls something
-      tmods(i) == {f[j] : j \in {k \in 1..NP : <<i, k>> \in R}} \ {"", f[i]}
+      tmods(i) == {f[j] : j \in {k \in 1..NP : direct(i, k)}} \ {"", f[i]}
       tmodSeq(S) == MapSeq(SortedSeq({ModIdx(m) : m \in S}), LAMBDA k : MNames[k])
-      onlyOf(I, m) == MapSeq(SortedSeq({j \in 1..NP : f[j] = m /\ \E i \in I : <<i, j>> \in R}), LAMBDA k : PN[k])
+      onlyOf(I, m) == MapSeq(SortedSeq({j \in 1..NP : f[j] = m /\ \E i \in I : direct(i, j)}), LAMBDA k : PN[k])
       imp(I, m) == [mod |-> m, only |-> IF qualified THEN onlyOf(I, m) ELSE <<>>]
       \* the variable import of p1: the highest used module different from p1's own
       vmods == {ModIdx(m) : m \in used \ {f[1]}}
@@ -57,6 +65,7 @@ MkProject(NP, f, R, style, vimp, fm) ==
       vimpSeq(i) == IF vimp /\ i = 1 /\ vmods # {} THEN <<[mod |-> vmod, only |-> <<"v_" \o vmod>>]>> ELSE <<>>
       procImports(i) ==
         (IF rlevel(i) THEN MapSeq(tmodSeq(tmods(i)), LAMBDA m : imp({i}, m)) ELSE <<>>) \o vimpSeq(i)
+        \o (IF viaIf(i) THEN <<[mod |-> f[NP], only |-> <<gname>>]>> ELSE <<>>)
       members(m) == {i \in 1..NP : f[i] = m}
       modImports(m) ==
         IF style \in {"only_m", "unq_m"}
@@ -64,10 +73,13 @@ MkProject(NP, f, R, style, vimp, fm) ==
         ELSE <<>>
       fileOfMod(m) == IF fm = "joint" /\ m # "m1" THEN "f0" ELSE m
       fileOfProc(i) == IF f[i] # "" THEN fileOfMod(f[i]) ELSE IF fm = "joint" THEN "f0" ELSE PN[i]
-  IN [mods  |-> MapSeq(usedSeq, LAMBDA m : [name |-> m, file |-> fileOfMod(m), imports |-> modImports(m), vars |-> <<"v_" \o m>>, params |-> <<>>]),
+  IN [mods  |-> MapSeq(usedSeq, LAMBDA m : [name |-> m, file |-> fileOfMod(m), imports |-> modImports(m), vars |-> <<"v_" \o m>>, params |-> <<>>,
+                                          ifaces |-> IF ifcOn /\ m = f[NP] THEN <<[name |-> gname, procs |-> <<PN[NP]>>]>> ELSE <<>>]),
       procs |-> [i \in 1..NP |-> [name |-> PN[i], mod |-> f[i], file |-> fileOfProc(i),
                                  imports |-> procImports(i),
-                                 calls |-> MapSeq(callees(i), LAMBDA j : PN[j])]]]
+                                 calls |-> MapSeq(callees(i), LAMBDA j : IF j = NP /\ viaIf(i) THEN gname ELSE PN[j])]]]
+
+MkProject(NP, f, R, style, vimp, fm) == MkProjectI(NP, f, R, style, vimp, fm, FALSE)
 
 ---------------------------------------------------------------------------------------------
 (* Configuration lattice (depends on the project through the names of three distinguished          *)
